@@ -312,7 +312,15 @@ impl<'a> Model<'a> {
                 Ev::StreamItem { slot, recvs } => {
                     response_no += 1;
                     if let Some(s) = m.streams.get_mut(slot) {
-                        let (lo_seq, lo_t) = s.items.last().map(|(a, b, _)| (*a, *b)).unwrap_or((s.open_seq, s.open_t));
+                        let (mut lo_seq, mut lo_t) = s.items.last().map(|(a, b, _)| (*a, *b)).unwrap_or((s.open_seq, s.open_t));
+                        // At a quiescent barrier an open stream's pull loop is parked; whatever it
+                        // delivers later was pulled after that barrier.
+                        if let Some(b) = m.barriers.iter().rev().find(|b| b.quiescent) {
+                            if b.seq > lo_seq {
+                                lo_seq = b.seq;
+                                lo_t = b.t;
+                            }
+                        }
                         s.items.push((e.seq, e.t_us, recvs.len()));
                         let sub = s.sub.clone();
                         for (pos, r) in recvs.iter().enumerate() {
